@@ -379,6 +379,36 @@ fn c09(r: &Runner) {
                 }
             }
         });
+        // bases of EVERY bit length: 2^k - 1, 2^k + 1, 3 * 2^(k-1) for k = 2..=63, every power of ten, and some
+        // ordinary-looking ones; on a thinner value set
+        if bits > 8 {
+            let mut xb: Vec<u64> = vec![6_000_000_000, 1_000_003, 0x9E37_79B9_7F4A_7C15, 0x0101_0101_0101_0101, 12345678901234567];
+            for k in 2..=63u32 {
+                xb.extend([(1u64 << k) - 1, (1u64 << k) + 1, 3u64 << (k - 1)]);
+            }
+            let mut p10 = 10u64;
+            for _ in 1..=19 {
+                xb.push(p10);
+                p10 = p10.wrapping_mul(10);
+            }
+            xb.retain(|b| *b >= 2);
+            xb.sort();
+            xb.dedup();
+            let (xv, xd) = pick(bits, if SWEEP { 24 } else if r.is_thorough() { 1200 } else { 120 }, &[0x9E37_79B9_7F4A_7C15]);
+            r.universe(&format!("{xd} x {} bases of every bit length: digits and round trips", xb.len()), bits, xv.len(), |i, l| {
+                let a = vu(&xv[i]);
+                let v = big(&xv[i]);
+                for &b in &xb {
+                    l.states(1);
+                    exec(l, bits, Op::to_base_le, &[a.clone(), V::N(b as u128)]);
+                    exec(l, bits, Op::to_base_be, &[a.clone(), V::N(b as u128)]);
+                    let dg = digits_le(&v, b);
+                    let be: Vec<u64> = dg.iter().rev().copied().collect();
+                    exec(l, bits, Op::from_base_le, &[V::N(b as u128), nl(&dg)]);
+                    exec(l, bits, Op::from_base_be, &[V::N(b as u128), nl(&be)]);
+                }
+            });
+        }
         // overflow-by-one and invalid digits, per base
         r.universe(&format!("{nb} bases: overflow-by-one and invalid-digit strings"), bits, bases.len(), |i, l| {
             let b = bases[i];
@@ -550,6 +580,91 @@ fn c09(r: &Runner) {
             }
             for s in [v.to_str_radix(10), format!("0x{}", v.to_str_radix(16)), format!("0X{}", v.to_str_radix(16).to_uppercase()), format!("0o{}", v.to_str_radix(8)), format!("0b{}", v.to_str_radix(2)), format!("0B{}", v.to_str_radix(2)), format!("00{}", v.to_str_radix(10))] {
                 exec(l, bits, Op::from_str, &[V::S(s)]);
+            }
+        });
+    }
+    // single-character substitutions: every position of a full-width (zero-padded) and of a minimal text is replaced by
+    // each of a set of characters that are digits in some radix only, signs, separators or junk
+    for &bits in ws {
+        if bits == 0 {
+            continue;
+        }
+        let m = pow2(bits);
+        let vals: Vec<BigUint> = vec![BigUint::from(0u32), &m - 1u32, (&m - 1u32) / 3u32, big(&golden(nlimbs(bits)).iter().enumerate().map(|(i, x)| if i == nlimbs(bits) - 1 { x & mask(bits) } else { *x }).collect::<Vec<u64>>()) >> 3usize];
+        let subs: Vec<char> = "+-_ 0fFgGzZ/=.\u{e9}".chars().collect();
+        let radices = [2u32, 8, 10, 16, 36];
+        r.universe(&format!("single-character substitutions at every position of full-width and minimal texts ({} values x {} radices x {} characters)", vals.len(), radices.len(), subs.len()), bits, vals.len() * radices.len(), |i, l| {
+            let v = &vals[i / radices.len()];
+            let radix = radices[i % radices.len()];
+            let minimal = v.to_str_radix(radix);
+            let width = (&m - 1u32).to_str_radix(radix).len();
+            let full = format!("{}{}", "0".repeat(width.saturating_sub(minimal.len())), minimal);
+            for t in [&minimal, &full] {
+                let cs: Vec<char> = t.chars().collect();
+                for pos in 0..=cs.len() {
+                    for &c in &subs {
+                        l.states(1);
+                        // replace the character at `pos` (or append at the end)
+                        let mut w = cs.clone();
+                        if pos < w.len() {
+                            w[pos] = c;
+                        } else {
+                            w.push(c);
+                        }
+                        let st: String = w.iter().collect();
+                        exec(l, bits, Op::from_str_radix, &[V::S(st.clone()), V::N(radix as u128)]);
+                        if radix == 16 {
+                            exec(l, bits, Op::from_str, &[V::S(format!("0x{st}"))]);
+                        } else if radix == 10 {
+                            exec(l, bits, Op::from_str, &[V::S(st)]);
+                        }
+                    }
+                }
+            }
+        });
+    }
+    // long texts that denote small values: leading zeros / ignored characters up to and across every multiple of 64
+    // characters (limits on the LENGTH of the input must count significant digits only)
+    for &bits in ws {
+        let nlm = nlimbs(bits);
+        let mut js: Vec<usize> = (1..=(nlm + 2).min(6)).collect();
+        js.extend([nlm, nlm + 1, nlm + 2, 2 * nlm + 1]);
+        js.sort();
+        js.dedup();
+        let mut lens: Vec<usize> = vec![1, 2, 5000];
+        for j in js {
+            if j > 0 {
+                lens.extend([64 * j - 1, 64 * j, 64 * j + 1]);
+            }
+        }
+        let vals: Vec<BigUint> = vec![BigUint::from(0u32), BigUint::from(1u32), pow2(bits) - 1u32, pow2(bits)];
+        r.universe(&format!("texts padded with zeros / underscores to {} lengths across every multiple of 64", lens.len()), bits, lens.len(), |i, l| {
+            let n = lens[i];
+            for v in &vals {
+                for radix in [2u32, 10, 16, 36] {
+                    let t = v.to_str_radix(radix);
+                    for pad in ["0", "_", "0_"] {
+                        l.states(1);
+                        let mut st = pad.repeat(n / pad.len());
+                        st.push_str(&t);
+                        exec(l, bits, Op::from_str_radix, &[V::S(st.clone()), V::N(radix as u128)]);
+                        // and with the padding inside / after the digits (underscores only)
+                        if pad == "_" {
+                            exec(l, bits, Op::from_str_radix, &[V::S(format!("{t}{}", pad.repeat(n))), V::N(radix as u128)]);
+                        }
+                        if radix == 10 {
+                            exec(l, bits, Op::from_str, &[V::S(st)]);
+                        } else if radix == 16 {
+                            exec(l, bits, Op::from_str, &[V::S(format!("0x{st}"))]);
+                        }
+                    }
+                }
+                // base 64: 'A' is the zero digit
+                let mut dg = digits_le(v, 64);
+                dg.reverse();
+                let al: Vec<char> = "ABCDEFGHIJKLMNOPQRSTUVWXYZabcdefghijklmnopqrstuvwxyz0123456789+/".chars().collect();
+                let t: String = dg.iter().map(|d| al[*d as usize]).collect();
+                exec(l, bits, Op::from_str_radix, &[V::S(format!("{}{t}", "A".repeat(n))), V::N(64)]);
             }
         });
     }
